@@ -268,6 +268,8 @@ def gen_history(rng, max_ops: int, indexable: bool | None = None, invalid_rate: 
             npts = int(rng.choice(NPTS_CHOICES))
             if rng.random() < 0.015:
                 npts = TOO_LARGE_NPTS
+            elif rng.random() < 0.04:
+                npts = 0  # a trajectory without points is a trajectory: it is accepted, counted and must be returned
             o = {'op': 'add', 'tag': tag, 'npts': npts, 'extra': extra}
             fid = None
             if indexable:
